@@ -112,6 +112,8 @@ def _sigil_survives(ctx, rep):
 
 def check(ctx, rep):
     _swap_pairs(ctx, rep)
+    from ..sigils import check as _sigils
+    _sigils(ctx, rep, ['pcbasic/basic/memory/memory.py:DataSegment.swap_'], 2)
     _sigil_survives(ctx, rep)
     from . import c12, c10, _share
     _share.share(ctx, rep, c10, ('temporaries.boundary', 'roots.argument'), 'a live string is never treated as a temporary or read after it may have been collected (assigning one variable must not change another)')
@@ -260,6 +262,8 @@ def variants(ctx):
            in_fn('DataSegment.swap_', lambda fn: mu.replace_expr(fn, mu.text_is('self._view_buffer(name2, index2, True)'), 'self._view_buffer(name2, index1, True)')), expect='swap.operands-paired'),
         Va('name-cut-after-sigil', 'break', 'pcbasic/basic/base/codestream.py',
            in_fn('CodeStream.read_name', _cut_in_return), expect='names.sigil-survives-truncation'),
+        Va('swap-compares-uncompleted-names', 'break', M,
+           in_fn('DataSegment.swap_', lambda fn: mu.remove_stmt(fn, lambda st: isinstance(st, ast.Assign) and 'complete_name(name1)' in norm(st.value))), expect='names.sigil-read-from-completed-name'),
         Va('dereference-reads-last-array', 'break', A,
            lambda tree: mu.replace_expr(mu.find_def(tree, 'Arrays.dereference'), mu.text_is('self._buffers[found_name]'), 'self._buffers[name]'), expect='search.loop-variable'),
         Va('let-copies-field-strings-only', 'break', M,
